@@ -751,6 +751,22 @@ class AExitStack:
         return swallowed
 
 
+class ALogger:
+    """logging.getLogger(...): a logger nobody listens to - its methods do nothing, nothing is enabled."""
+    def __repr__(self):
+        return '<logger>'
+
+    def absint_hasattr(self, name):
+        return True
+
+    def absint_getattr(self, interp, name, node):
+        if name in ('disabled', 'propagate'):
+            return False
+        if name == 'level':
+            return 0
+        return ('attr', self, name)
+
+
 class ASuper:
     """super() inside a method: attribute lookup continues after the defining class in the MRO of the object."""
     def __init__(self, defcls, obj):
@@ -1177,6 +1193,10 @@ class AbsInt:
         elif isinstance(st, ast.Return):
             raise _Ret(self.ev(st.value, env, m) if st.value is not None else None)
         elif isinstance(st, ast.Raise):
+            if st.exc is None and getattr(self, '_active_exc', None):
+                # bare raise inside a handler: the exception being handled goes on, the very same one
+                orig = self._active_exc[-1]
+                raise AbsRaise(orig.exc, orig.node, implicit=orig.implicit, msg=getattr(orig, 'msg', ''), attrs=getattr(orig, 'attrs', None))
             self._raise_attrs = None
             name = self.exc_name(st, env, m)
             attrs, self._raise_attrs = self._raise_attrs, None
@@ -1262,7 +1282,12 @@ class AbsInt:
                         if any(exc_is(e.exc, hn, self.extra_exc_parents) for hn in self.handler_names(h, env, m)):
                             if h.name:
                                 env[h.name] = AExcValue(e.exc, e.attrs) if getattr(e, 'attrs', None) else Opaque('exception')
-                            self.ex_block(h.body, env, m)
+                            active = self.__dict__.setdefault('_active_exc', [])
+                            active.append(e)            # what a bare `raise` in the handler raises again
+                            try:
+                                self.ex_block(h.body, env, m)
+                            finally:
+                                active.pop()
                             break
                     else:
                         raise
@@ -1552,6 +1577,15 @@ class AbsInt:
                 self.ex_with(st, i + 1, env, m)
             finally:
                 self.method_call(v[1], 'close', [], {}, item.context_expr)
+            return
+        if isinstance(v, tuple) and len(v) == 2 and v[0] == 'suppressctx':
+            if item.optional_vars is not None:
+                self.assign(item.optional_vars, None, env, m)
+            try:
+                self.ex_with(st, i + 1, env, m)
+            except AbsRaise as e:
+                if not any(exc_is(e.exc, hn, self.extra_exc_parents) for hn in v[1]):
+                    raise
             return
         if isinstance(v, AExitStack):
             if item.optional_vars is not None:
@@ -1883,6 +1917,8 @@ class AbsInt:
                 return _BUILTINS[e.id]
             if e.id in _BUILTIN_EXCEPTIONS:
                 return ('excclass', e.id)
+            if e.id == '__debug__':
+                return True             # an ordinary run (under -O the assert statements it usually guards are gone as well)
             return Opaque(f'global {e.id}')
 
     def _v_Attribute(self, e, env, m):
@@ -1980,6 +2016,8 @@ class AbsInt:
                 import errno as _errno          # a table of integer constants of the platform, nothing else
                 if isinstance(getattr(_errno, e.attr, None), int):
                     return getattr(_errno, e.attr)
+            if base.name == 'typing' and e.attr == 'TYPE_CHECKING':
+                return False
             return ExtRef(f'{base.name}.{e.attr}')
         if isinstance(base, AEnumInt) and e.attr in ('value', 'name'):
             return int(base) if e.attr == 'value' else base.name
@@ -2049,7 +2087,24 @@ class AbsInt:
         try:
             return self.f.eval(e, {k: v for k, v in env.items() if _is_concrete(v)}, m)
         except Unfoldable:
-            return Opaque('str')
+            pass
+        # field by field: every field whose value is known is formatted as Python does it
+        parts = []
+        for v in e.values:
+            if isinstance(v, ast.Constant):
+                parts.append(str(v.value))
+                continue
+            val = self.ev(v.value, env, m)
+            spec = self.ev(v.format_spec, env, m) if v.format_spec is not None else ''
+            if not isinstance(spec, str) or not _is_concrete(val) or isinstance(val, (list, dict, set)):
+                return Opaque('str')
+            if v.conversion in (114, 115, 97):
+                val = {114: repr, 115: str, 97: ascii}[v.conversion](val)
+            try:
+                parts.append(format(val, spec))
+            except (ValueError, TypeError) as ex:
+                raise AbsRaise(type(ex).__name__, e, implicit=True)
+        return ''.join(parts)
 
     def _v_IfExp(self, e, env, m):
         if self.truth(self.ev(e.test, env, m), e.test):
@@ -2348,6 +2403,11 @@ class AbsInt:
             if sg is None:
                 return None
             return _cmp_interval(op, sg, sg)
+        if isinstance(op, (ast.Is, ast.IsNot)) and a is not b and type(a) is type(b) and isinstance(a, (str, bytes, tuple, float)) \
+                and _is_concrete(a) and _is_concrete(b) and a == b and len(a if not isinstance(a, float) else 'xx') > 1:
+            # two equal strings (tuples, floats) that are not known to be one object: whether they are is an accident of
+            # interning - `is` where `==` is meant works for literals and fails for a string that was read or built
+            return None
         if _is_concrete(a) and _is_concrete(b):
             try:
                 return bool(_CMPOPS[type(op)](a, b))
@@ -2475,6 +2535,8 @@ class AbsInt:
         if isinstance(v, AList):
             if v.kind == 'deque':
                 log_event('deque', 'test', v, node)
+            if v.kind in ('iterator', 'generator') and getattr(v, 'cls', None) is None:
+                return True             # an iterator object is true whether or not anything is left in it
             if v.minlen() > 0:
                 return True
             if not v.items:
@@ -2959,8 +3021,14 @@ class AbsInt:
                 return r
             if isinstance(base, AV) or (isinstance(base, tuple) and base and base[0] in ('repattern',)):
                 f = ('attr', base, e.func.attr)         # already evaluated: do not evaluate the receiver twice
+            elif isinstance(base, (AList, ADict, dict, list, tuple, str, set, Opaque)):
+                f = Opaque('method')
             else:
-                f = self._v_Attribute(e.func, env, m) if not isinstance(base, (AList, ADict, dict, list, tuple, str, set, Opaque)) else Opaque('method')
+                # the attribute of the receiver that has just been evaluated (evaluating the receiver expression a second
+                # time would run a call in it twice: a.b().c())
+                ae = ast.copy_location(ast.Attribute(value=ast.Name(id='__mc_base__', ctx=ast.Load()), attr=e.func.attr, ctx=ast.Load()), e.func)
+                ast.fix_missing_locations(ae)
+                f = self._v_Attribute(ae, {'__mc_base__': base}, m)
         else:
             f = self.ev(e.func, env, m)
         return self.apply(f, args, kwargs, e)
@@ -2972,6 +3040,11 @@ class AbsInt:
             return self.call_function(f.info, args, dict(kwargs), node)
         if isinstance(f, tuple) and f and f[0] == 'bound':
             return self.call_function(f[2], [f[1]] + list(args), dict(kwargs), node)
+        if isinstance(f, AObj) and f.cls is not None and '__fields__' not in f.attrs:
+            o, callm = self.p.lookup_method(f.cls, '__call__')      # an instance of a class of the program that can be called
+            if callm is not None:
+                return self.call_function(callm, [f] + list(args), dict(kwargs), node)
+            raise AbsRaise('TypeError', node, implicit=True, msg=f'{f.cls.name} object is not callable')
         if isinstance(f, tuple) and len(f) == 3 and f[0] == 'attr' and isinstance(f[2], str):
             base, name = f[1], f[2]
             if base is int and name == 'from_bytes' and args:
@@ -3176,6 +3249,24 @@ class AbsInt:
                 return ('nullctx', args[0] if args else None)
             if key in ('contextlib.closing', 'closing') and len(args) == 1 and not kwargs:
                 return ('closingctx', args[0])
+            if key in ('contextlib.suppress', 'suppress') and not kwargs:
+                names = []
+                for a_ in args:
+                    if isinstance(a_, tuple) and len(a_) == 2 and a_[0] == 'excclass':
+                        names.append(a_[1])
+                    elif isinstance(a_, ExtRef):
+                        names.append(a_.name)
+                    elif isinstance(a_, ClassRef):
+                        names.append(a_.info.name)
+                    else:
+                        return Opaque('suppress of something that is not an exception class')
+                return ('suppressctx', tuple(names))
+            if key in ('typing.cast', 'cast') and len(args) == 2 and not kwargs:
+                return args[1]
+            if key in ('logging.getLogger', 'getLogger'):
+                return ALogger()
+            if key.startswith('logging.') and key.split('.')[-1] in ('debug', 'info', 'warning', 'error', 'exception', 'critical', 'log'):
+                return None
             if key in ('contextlib.ExitStack', 'ExitStack') and not args and not kwargs:
                 return AExitStack()
             if key in ('functools.partial', 'partial') and args:
@@ -3313,8 +3404,24 @@ class AbsInt:
             src = args[0]
             if f in (bytearray, bytes) and isinstance(src, int) and not isinstance(src, bool) and 0 <= src <= 4096:
                 return AList([0] * src, f.__name__)         # bytearray(5) is five zero bytes, not an error
+            if isinstance(src, AList) and src.kind == 'array' and f in (bytearray, bytes):
+                # the buffer of an array whose items are wider than a byte: the raw memory, not the items
+                return Opaque('raw memory of an array of wide items')
             if isinstance(src, (AList, SeqVar)):
-                items = src.items if isinstance(src, AList) else [src]
+                if isinstance(src, AList) and src.kind in ('iterator', 'fickle', 'generator'):
+                    items = self.iterate(src, node, keep_vars=True)         # (uses the iterator up)
+                else:
+                    items = src.items if isinstance(src, AList) else [src]
+                if f in (bytearray, bytes):
+                    for it in items:
+                        if isinstance(it, SeqVar):
+                            continue
+                        if isinstance(it, bool) or not isinstance(it, (int, AV)):
+                            if isinstance(it, (str, float, type(None), list, tuple)):
+                                raise AbsRaise('TypeError', node, implicit=True, msg='an integer is required')
+                            continue
+                        if isinstance(it, int) and not 0 <= it <= 255:
+                            raise AbsRaise('ValueError', node, implicit=True, msg='byte must be in range(0, 256)')
                 return AList(items, f.__name__)
             if isinstance(src, ADict):
                 return list(src.d.keys())
@@ -3514,6 +3621,13 @@ class AbsInt:
             return dict
         if type(v).__name__ == 'SStr':
             return str
+        if isinstance(v, AList) and getattr(v, 'cls', None) is None and v.kind in ('iterator', 'fickle', 'generator', 'deque', 'array'):
+            # not one of the sequence types a shortcut may test for: the type of a list iterator / generator / deque / array
+            import array as _array
+            import collections as _collections
+            import types as _types
+            return {'iterator': type(iter([])), 'fickle': type(iter([])), 'generator': _types.GeneratorType, 'deque': _collections.deque,
+                    'array': _array.array}[v.kind]
         return None
 
     def _type_names(self, t):
@@ -3687,6 +3801,14 @@ class AbsInt:
             o, fn = self.p.lookup_method(base.cls, name)
             if fn is not None and not any(isinstance(d, ast.Name) and d.id == 'property' for d in fn.node.decorator_list):
                 return self.call_function(fn, [base] + list(args), dict(kwargs), node)
+        if isinstance(base, ALogger):
+            if name in ('isEnabledFor',):
+                return False
+            if name in ('getEffectiveLevel',):
+                return 30
+            if name in ('getChild',):
+                return ALogger()
+            return None
         if isinstance(base, AExitStack):
             return base.absint_method(self, name, list(args), dict(kwargs), node)
         if isinstance(base, AStruct):
@@ -4204,7 +4326,7 @@ def _concretize(v, memo):
             return v
     if isinstance(v, list):
         return [concretize(x, memo) for x in v]
-    if isinstance(v, tuple) and not (v and v[0] in ('closure', 'bound', 'lambda', 'attrgetter', 'itemgetter', 'attr', 'mockmethod', 'signed', 'repattern', 'objectmethod', 'ntmake', 'ntmethod', 'excclass', 'partial', 'methodcaller', 'nullctx', 'closingctx')):
+    if isinstance(v, tuple) and not (v and v[0] in ('closure', 'bound', 'lambda', 'attrgetter', 'itemgetter', 'attr', 'mockmethod', 'signed', 'repattern', 'objectmethod', 'ntmake', 'ntmethod', 'excclass', 'partial', 'methodcaller', 'nullctx', 'closingctx', 'suppressctx')):
         return tuple(concretize(x, memo) for x in v)
     if isinstance(v, dict):
         return {k: concretize(x, memo) for k, x in v.items()}
